@@ -1,5 +1,5 @@
 (* Props_C16.v — C16: custom broadcasts: delivered intact, only where allowed, invalidated promptly. *)
-From Foca Require Import Laws BcastM FocaM WireM L_Bcast L_Fill L_Members L_MembersInv Inv Reach L_Wire L_Dissem L_BacklogOps L_BroadcastBound.
+From Foca Require Import Laws BcastM FocaM WireM L_Bcast L_Fill L_Members L_MembersInv Inv Reach L_Wire L_Dissem L_BacklogOps L_BroadcastBound L_TxAccount.
 From Coq Require Import Relations.
 From Coq Require Import Sorted.
 
@@ -99,6 +99,17 @@ Theorem C16_dgram_of_meaning (id : Id) (inc : N) (msg : message Id) (e : effect 
   match e with Send dst b => exists rest, b = enc_hdr (mkHeader id inc dst msg) ++ rest | _ => False end.
 Proof. reflexivity. Qed.
 
+(* the same ledger as for cluster updates (C15): a length-prefixed fill that writes n items lowers the
+   transmissions owed by the custom backlog by exactly n; accepting an item raises them by at most
+   max_transmissions (and removes whatever the new key invalidates) *)
+Theorem C16_fill_costs_one_transmission_each (hint : list N) (l : backlog hkey) (room mx : N) w n kept :
+  fill_gen hkey 2 hint l room mx = (w, n, kept, None) -> total kept + n = total l.
+Proof. exact (fill_total hkey 2 hint l room mx w n kept). Qed.
+
+Theorem C16_accept_adds_at_most_max_transmissions (l : backlog hkey) (k : hkey) (d : bytes) (mx : N) :
+  total (add_or_replace hkey h_inval l k d mx) <= total l + mx.
+Proof. exact (add_or_replace_total hkey h_inval l k d mx). Qed.
+
 End C16.
 
 Print Assumptions C16_backlog_operations.
@@ -112,3 +123,5 @@ Print Assumptions C16_receiver_sees_items.
 Print Assumptions C16_broadcast_empty.
 Print Assumptions C16_broadcast_bound.
 Print Assumptions C16_dgram_of_meaning.
+Print Assumptions C16_fill_costs_one_transmission_each.
+Print Assumptions C16_accept_adds_at_most_max_transmissions.
